@@ -385,7 +385,12 @@ class Ctx:
         ev = {"property_id": self.pid, "tier": self.tier, "seed": self.seed, "level": level, "coverage": cov,
               "assumptions": assumptions or [], "wall_s": round(time.time() - self.t0, 2),
               "violations": len(self.violations)}
-        with open(os.path.join(VERIF, "evidence", "%s.json" % self.pid), "w") as f:
+        # evidence/ describes /repo itself: a run against another tree (VERIF_REPO=<scratch worktree with a seeded change>)
+        # must not overwrite it
+        evdir = os.environ.get("VERIF_EVIDENCE_DIR") or (os.path.join(VERIF, "evidence") if os.path.realpath(REPO) == "/repo"
+                                                         else "/var/tmp/verif_evidence_other_tree")
+        os.makedirs(evdir, exist_ok=True)
+        with open(os.path.join(evdir, "%s.json" % self.pid), "w") as f:
             json.dump(ev, f, indent=1, default=str)
         for sig, what, kid in self.known_hits:
             print("KNOWN-FINDING: property=%s %s [%s]" % (self.pid, what, kid))
